@@ -8,9 +8,8 @@ import "unsafe"
 //go:norace
 func atomicPoint(what string, addr unsafe.Pointer) {
 	Yield(what)
-	p := (*int64)(addr)
-	raceAcquire(p)
-	raceReleaseMerge(p)
+	raceAcquireAddr(addr)
+	raceReleaseMergeAddr(addr)
 }
 
 //go:norace
